@@ -652,13 +652,26 @@ func judgeBorrow(res borrowResult, resets func(typ string) map[string]bool) (sit
 			poolUsers[p] = append(poolUsers[p], bf.name)
 		}
 		// a deferred write of x.f counts as the restore of the plain writes of x.f in the same function
+		// the deferred restore has to be registered before the field is changed: the value it puts back is
+		// evaluated at the defer statement (`defer func(v bool) { x.f = v }(x.f)` after `x.f = true` restores true)
 		restored := map[string]bool{}
 		plain := map[string]bool{}
+		firstPlain := map[string]token.Pos{}
+		for _, w := range bf.writes {
+			if !w.deferred {
+				k := w.typ + "." + w.field
+				plain[k] = true
+				if p, ok := firstPlain[k]; !ok || w.pos < p {
+					firstPlain[k] = w.pos
+				}
+			}
+		}
 		for _, w := range bf.writes {
 			if w.deferred {
-				restored[w.typ+"."+w.field] = true
-			} else {
-				plain[w.typ+"."+w.field] = true
+				k := w.typ + "." + w.field
+				if p, ok := firstPlain[k]; !ok || w.pos < p {
+					restored[k] = true
+				}
 			}
 		}
 		for _, w := range bf.writes {
@@ -669,8 +682,11 @@ func judgeBorrow(res borrowResult, resets func(typ string) map[string]bool) (sit
 			}
 			if w.origin&orBorrowed != 0 {
 				switch {
-				case w.deferred && plain[fkey]:
+				case w.deferred && plain[fkey] && restored[fkey]:
 					discharged = append(discharged, fmt.Sprintf("%s:%s: deferred restore", w.fn, fkey))
+				case w.deferred && plain[fkey]:
+					sites = append(sites, synSite{pos: w.pos, file: w.file, key: w.fn + ":" + fkey + ":restore-registered-after-the-change",
+						msg: fmt.Sprintf("%s defers the restore of %s.%s after it has already changed the field: what the deferred function puts back is the changed value", w.fn, w.typ, w.field)})
 				case !w.deferred && restored[fkey]:
 					discharged = append(discharged, fmt.Sprintf("%s:%s: restored by a deferred function", w.fn, fkey))
 				default:
@@ -797,7 +813,7 @@ func B(v any) []byte {
 
 func ruleBorrowedWrites(prog *Program, rep *Report) {
 	rep.Rules = append(rep.Rules,
-		"C-borrowed: a package-level function of oj or sen that can be working on the caller's own Writer/Parser/Validator/Tokenizer (handed in through the arguments, directly or through a helper that may return its argument) assigns no field of it that the type's entries do not reset themselves, unless a deferred function assigns the field back: otherwise the caller's next call on that instance differs from a call on a fresh one. The origin (fresh / pooled / caller's) of every such variable is followed over the statement tree with nil-test refinement",
+		"C-borrowed: a package-level function of oj or sen that can be working on the caller's own Writer/Parser/Validator/Tokenizer (handed in through the arguments, directly or through a helper that may return its argument) assigns no field of it that the type's entries do not reset themselves, unless a deferred function, registered before the change, assigns the field back: otherwise the caller's next call on that instance differs from a call on a fresh one. The origin (fresh / pooled / caller's) of every such variable is followed over the statement tree with nil-test refinement",
 		"C-poolwrite: a field assigned on an instance taken from a sync.Pool, and not reset by the type's entries, is assigned by every package-level function taking from that pool, with the same value text")
 	ff, finfo, _, err := loadFixture(fixtureBorrow)
 	if err != nil {
